@@ -28,12 +28,31 @@ func init() {
 // decode: the real (*conn).readRequest on a reader holding exactly these bytes
 func runDecode(t *Toks) string {
 	data := t.Hex()
-	c := gldap.VerifNewConn(bytes.NewReader(data), io.Discard, nil, 1)
-	r, err := c.ReadRequest(1)
-	if err != nil {
-		return "ERR"
+	one := func(c *gldap.VerifConn) string {
+		r, err := c.ReadRequest(1)
+		if err != nil {
+			return "ERR"
+		}
+		return "OK " + canonRequest(r)
 	}
-	return "OK " + canonRequest(r)
+	plain := one(gldap.VerifNewConn(bytes.NewReader(data), io.Discard, nil, 1))
+	// the same frame with debug logging on (packet dumps and whatever else only runs then):
+	// a panic there is a panic of request reading, and the result must not depend on the logger
+	dbg := func() (out string) {
+		defer func() {
+			if p := recover(); p != nil {
+				out = "PANIC"
+			}
+		}()
+		return one(gldap.VerifNewConnDebug(bytes.NewReader(data), io.Discard, nil, 1))
+	}()
+	if dbg == "PANIC" {
+		return "PANIC"
+	}
+	if dbg != plain {
+		return "LOGGER-DEPENDENT " + plain + " / " + dbg
+	}
+	return plain
 }
 
 // stream: frame after frame as serveRequests reads them, until an error, an
